@@ -4,7 +4,9 @@ From Coq Require Import String List NArith ZArith Bool.
 From J5V.lib Require Import Outcome.
 From J5V.model Require Import RulesDecl RulesWrite RulesRead RulesEnum RulesSpec Validate.
 From J5V.gen Require Id62Gen RulesGen.
+From J5V.model Require Import ProtoPrint ProtoPrintFile ProtoParseFile.
 From J5V.proofs Require Import RulesProofs RulesReadProofs RulesGenProofs RulesReadGenProofs.
+From J5V.proofs Require Import ProtoPrintFileSemProofs ProtoPrintFileFullProofs RulesTextProofs.
 Import ListNotations.
 Local Open Scope N_scope.
 
@@ -74,6 +76,40 @@ Theorem C04_text_clause : forall env os os',
   read_object env os' = read_object env os.
 Proof. exact c04_text_clause. Qed.
 Print Assumptions C04_text_clause.
+
+(* second clause, composed with family tool's file-level printer / parser model
+   (C05_file_canonical + C05_file_equiv): print a well-formed descriptor file of that
+   model, parse the printed tokens; every message is found again, and reading its
+   fields yields the same properties — for ANY way [view] of reading the reader's
+   annotation record off a field descriptor that depends on the field's content only
+   (not on source positions, not on the order of its options). Messages must list
+   their elements in print order (what the compiler produces).
+   What is left open: the concrete [view] (decoding the option trees of
+   (buf.validate.field), (j5.ext.v1.field), (j5.list.v1.field), (j5.ext.v1.key) into
+   [fout]) and with it the tie "view of the dumped descriptor = the annotations the
+   harness dumps"; and what the tool model leaves open itself (characters between
+   tokens; map value-field options are not in its descriptors at all — the known
+   finding lives there). *)
+Theorem C04_text_composed :
+  forall (view : dfield -> fout),
+    (forall f f', field_equiv f f' -> c04_proj (view f) = c04_proj (view f')) ->
+    forall env imp D,
+      wf_dfile imp D ->
+      exists D',
+        parse_file_tokens imp (print_file_tokens (to_symtab (dfile_symtab imp D)) D) = Some D' /\
+        forall k c n o body,
+          In (DMsg k c n o body) (d_body D) -> in_print_order body ->
+          exists k' o' body',
+            In (DMsg k' c n o' body') (d_body D') /\
+            read_object env (map view (body_fields body')) = read_object env (map view (body_fields body)).
+Proof. exact c04_text_composed. Qed.
+Print Assumptions C04_text_composed.
+
+(* the hypothesis on the view is satisfiable by one that reads real content *)
+Theorem C04_text_view_exists :
+  forall f f', field_equiv f f' -> c04_proj (basic_view f) = c04_proj (basic_view f').
+Proof. exact basic_view_content. Qed.
+Print Assumptions C04_text_view_exists.
 
 (* names, order and proto paths for EVERY compiled object that reflects at all —
    no fragment hypothesis: whatever else is lost, the reflected object has the
